@@ -228,6 +228,26 @@ impl<Word: BitArray, S: Semantics, B> SymbolCoder<Word, S, B> {
     }
 }
 
+// VERIFICATION HOOKS (compiled only with `--cfg constriction_verif`) =========
+
+#[cfg(constriction_verif)]
+impl<Word: BitArray, S: Semantics, B> SymbolCoder<Word, S, B> {
+    /// Exposes the private representation `(backend, current_word, mask_last_written)`.
+    #[doc(hidden)]
+    pub fn verif_raw(&self) -> (&B, Word, Word) {
+        (&self.backend, self.current_word, self.mask_last_written)
+    }
+}
+
+#[cfg(constriction_verif)]
+impl<Word: BitArray, B> QueueDecoder<Word, B> {
+    /// Exposes the private representation `(backend, current_word, mask_next_to_read)`.
+    #[doc(hidden)]
+    pub fn verif_raw(&self) -> (&B, Word, Word) {
+        (&self.backend, self.current_word, self.mask_next_to_read)
+    }
+}
+
 // SPECIAL IMPLEMENTATIONS FOR VEC ============================================
 
 impl<Word: BitArray> StackCoder<Word, Vec<Word>> {
